@@ -7,7 +7,10 @@ the pagination measures (recorded from the real `get_string_width` while the rea
 of the model).
 
 `run(res, tier)` generates documents in three stages (plain / page_by+subline_by / group_by), encodes each with the
-real rtflite and with the model and compares the two strings byte for byte.
+real rtflite and with the model and compares the two strings byte for byte.  Every stage also draws documents of the
+header-variation class (`vary_headers`): 1–3 explicit header rows with any number of cells from 1 to the original
+column count + 1, widths inherited from the body / per original column / per displayed column / per cell, written
+without regard to the columns page_by / subline_by take out of the table (evidence labels `hdrcells:…`).
 
     python -m harness.encodecorr N SEED        # N documents per stage, agreement statistics
 """
@@ -534,9 +537,151 @@ def add_group_by(rng, spec, info):
     info["displayed"] = info["displayed"] + names
 
 
-def gen_doc(rng, stage: int, k: int):
+def body_width_count(spec) -> int:
+    """number of entries of the body's `col_rel_width` after construction (`_resolve_body_widths`): what a header
+    without widths of its own inherits"""
+    ncols = len(spec["df"]["cols"])
+    w = (spec.get("body") or {}).get("col_rel_width")
+    if w is None:
+        return ncols
+    if not isinstance(w, list):
+        w = [w]
+    return ncols if len(w) == 1 and ncols > 1 else len(w)
+
+
+def cell_class(n: int, nd: int, ncols: int) -> str:
+    """where the number of cells of a header row sits between the displayed (`nd`) and the original (`ncols`) columns"""
+    if n > ncols:
+        return "over"
+    if n == nd:
+        return "displayed"
+    if n == ncols:
+        return "original"
+    if n > nd:
+        return "between"
+    return "span" if n == 1 else "fewer"
+
+
+HEADER_WIDTH_MODES = ["inherit", "inherit", "inherit", "per-original", "per-original", "per-displayed", "per-cell",
+                      "per-cell+1", "one"]
+
+
+def vary_headers(rng, spec, info, *, in_domain=False):
+    """Explicit column header rows written WITHOUT regard to which columns the table ends up displaying.
+
+    1–3 header rows; each row has any number of cells from 1 to (original column count + 1) — a spanning cell, fewer
+    than / exactly / more than the displayed columns, one cell per ORIGINAL column (the row still names the page_by /
+    subline_by / page_by-as-spanning-row columns that are taken out of the table), one more than that — and its
+    `col_rel_width` is absent (inherited from the body: one entry per original column), or given per original column,
+    per displayed column, per cell, per cell + 1, or as a single entry.  Rows with more cells than width entries raise
+    IndexError in the unchanged encoder (listed domain decision, DESIGN §8; the encoder model raises the same):
+    `in_domain=True` never writes them, otherwise they are kept rare.  Attributes already on the header objects stay."""
+    cols = spec["df"]["cols"]
+    ncols = len(cols)
+    removed = set(info.get("removed") or [])
+    nd = len([c for c in cols if c not in removed])
+    mbody = body_width_count(spec)
+    old = spec["headers"] if isinstance(spec["headers"], list) else []
+    old = [h for h in old if isinstance(h, dict)]
+    nrows = rng.choice([1, 1, 2, 2, 3])
+    rows = []
+    for r in range(nrows):
+        last = r == nrows - 1
+        pool = [1, nd, ncols, ncols, rng.randint(1, ncols), rng.randint(1, ncols + 1), ncols + 1]
+        if last:
+            pool += [nd, ncols, ncols]            # the row right above the data usually names columns
+        else:
+            pool += [1, 1, max(1, nd // 2)]       # upper rows usually span
+        n = rng.choice(pool)
+        wmode = rng.choice(HEADER_WIDTH_MODES)
+        m = {"inherit": mbody, "per-original": ncols, "per-displayed": nd, "per-cell": n, "per-cell+1": n + 1,
+             "one": 1}[wmode]
+        if n > m and (in_domain or rng.random() < 0.85):
+            if rng.random() < 0.5:
+                n = rng.randint(1, m)
+            else:
+                wmode, m = rng.choice([("per-cell", n), ("per-cell+1", n + 1)])
+        h = dict(old[r]) if r < len(old) else {}
+        h["text"] = [f"HD{r}c{j}" for j in range(n)]
+        h.pop("col_rel_width", None)
+        if wmode != "inherit":
+            h["col_rel_width"] = [rng.choice([1, 1, 2, 1.5, 3, 0.7]) for _ in range(m)]
+        rows.append(h)
+    spec["headers"] = rows
+    info["header_mode"] = "varied"
+
+
+def label_headers(spec, info):
+    """`info["header_rows"]` = per explicit header row of the final spec [cells, cell-count class, width mode,
+    widths cover the cells]; `info["n_removed"]` = columns taken out of the table"""
+    cols = spec["df"]["cols"]
+    ncols = len(cols)
+    removed = set(info.get("removed") or [])
+    nd = len([c for c in cols if c not in removed])
+    mbody = body_width_count(spec)
+    labels = []
+    hs = spec.get("headers")
+    for h in (hs if isinstance(hs, list) else []):
+        if not isinstance(h, dict) or not isinstance(h.get("text"), list) or not h["text"]:
+            continue
+        n = len(h["text"])
+        w = h.get("col_rel_width")
+        if w is None:
+            wmode, m = "inherit", mbody
+        else:
+            m = len(w) if isinstance(w, list) else 1
+            wmode = ("per-original" if m == ncols and ncols > nd else "per-displayed" if m == nd else
+                     "per-cell" if m == n else "per-cell+1" if m == n + 1 else "one" if m == 1 else "other")
+        labels.append([n, cell_class(n, nd, ncols), wmode, n <= m])
+    info["header_rows"] = labels
+    info["n_removed"] = ncols - nd
+
+
+def count_header_rows(res, info, prefix="hdrcells"):
+    """evidence labels for the explicit header rows of a document: cell-count class / width mode per row, and the
+    number of columns the table loses to page_by / subline_by"""
+    rows = info.get("header_rows")
+    if not rows:
+        return
+    nr = int(info.get("n_removed", 0))
+    for n, cls, wmode, covered in rows:
+        res.count(f"{prefix}:{'removal' if nr else 'no-removal'}:{cls}/{wmode}" +
+                  ("" if covered else ":more-cells-than-widths"))
+    if info.get("header_mode") == "varied":
+        res.count(f"{prefix}:varied:removed-columns={min(nr, 3)}{'+' if nr > 3 else ''}")
+        res.count(f"{prefix}:varied:rows={len(rows)}")
+
+
+HV_STRATEGIES = ["page_by", "page_by", "page_by_np_first", "page_by_np_first", "subline", "subline",
+                 "subline_page_by", "subline_page_by", "page_by_np"]
+
+
+def gen_doc(rng, stage: int, k: int, vary: bool = False):
+    """`vary`: documents of the header-variation class (`vary_headers`) — same stages; stage 2 prefers the strategies
+    that take columns out of the table"""
     from .props import c01, c02, c06, c09
 
+    if vary:
+        geo = c06.rand_geometry(rng)
+        strategy = "plain" if stage == 1 or (stage == 3 and rng.random() < 0.4) else rng.choice(HV_STRATEGIES)
+        n = 0 if rng.random() < 0.04 else rng.randint(1, 30)
+        spec, info = laygen.gen_spec(rng, strategy=strategy, n=n, dividers=(k % 4 == 0), geometry=geo or None,
+                                     header_mode="explicit", page_headers=(rng.random() < 0.3),
+                                     nulls=rng.choice([0.0, 0.0, 0.1]), ndata=rng.choice([1, 2, 2, 3, 4]),
+                                     levels=None if strategy == "plain" else rng.choice([None, 1, 2, 3]))
+        info["gen"] = "laygen+headers"
+        if strategy != "plain" and rng.random() < 0.5:
+            c09.permute_columns(rng, spec, info)
+        if stage == 3:
+            add_group_by(rng, spec, info)
+        if rng.random() < 0.4:
+            ncols = len(spec["df"]["cols"])
+            spec["body"]["col_rel_width"] = [rng.choice([1, 2, 1.5, 3, 0.7]) for _ in range(ncols)]
+        vary_headers(rng, spec, info)
+        if rng.random() < 0.5:
+            decorate(rng, spec, info, rich=False)
+        label_headers(spec, info)
+        return spec, info
     if k % 7 == 6:
         # the mixed generator of C01 (single-section table documents only)
         kk = k
@@ -601,12 +746,16 @@ def stage_of(spec) -> int:
 # ----------------------------------------------------------------------------- correspondence
 
 def _worker(args):
-    seed, stage, k, fixed = args
+    seed, stage, k, fixed, *rest = args
     try:
         if fixed is not None:
             spec, info = fixed["spec"], fixed.get("info", {})
+        elif rest and rest[0]:
+            # the header-variation class (`vary_headers`): its own random stream, the stages' streams stay as they were
+            spec, info = gen_doc(common.sub_rng(seed, "encodecorr", "headers", stage, k), stage, k, vary=True)
         else:
             spec, info = gen_doc(common.sub_rng(seed, "encodecorr", stage, k), stage, k)
+            label_headers(spec, info)
         out = dict(spec=spec, info=info, stage=stage)
         try:
             with contextlib.redirect_stdout(io.StringIO()):
@@ -663,8 +812,14 @@ def compare(outs):
     return outs
 
 
-def generate_and_compare(seed: int, n_per_stage: int, stages=(1, 2, 3)):
+HEADER_SHARE = {1: 6, 2: 2, 3: 4}      # header-variation documents per stage: n_per_stage // share
+
+
+def generate_and_compare(seed: int, n_per_stage: int, stages=(1, 2, 3), headers: bool = False):
+    """`headers=True` adds the documents of the header-variation class (`vary_headers`) to every stage"""
     jobs = [(seed, st, k, None) for st in stages for k in range(n_per_stage)]
+    if headers:
+        jobs += [(seed, st, k, None, True) for st in stages for k in range(n_per_stage // HEADER_SHARE[st])]
     outs = common.pool_map(_worker, jobs, chunksize=8)
     for o in outs:
         if "machinery" in o:
@@ -675,11 +830,12 @@ def generate_and_compare(seed: int, n_per_stage: int, stages=(1, 2, 3)):
 def run(res, tier):
     """per-stage byte agreement of the encoder model with the implementation; returns the list of outcomes"""
     n = 150 if tier == "quick" else 1200
-    outs = generate_and_compare(res.seed, n)
+    outs = generate_and_compare(res.seed, n, headers=True)
     for o in outs:
         st = STAGE_NAMES[stage_of(o["spec"])]
         case = dict(level="encode-doc", spec=o["spec"], info={k: v for k, v in o["info"].items() if k != "expect"})
         res.count(f"encode:{st}:{o['verdict']}")
+        count_header_rows(res, o["info"])
         if o["verdict"] in ("agree", "both-error"):
             res.corr_checked += 1
         elif o["verdict"] in ("near", "construct-error"):
@@ -708,7 +864,7 @@ def main(argv):
     import time
 
     t0 = time.time()
-    outs = generate_and_compare(seed, n)
+    outs = generate_and_compare(seed, n, headers=True)
     stats: dict = {}
     for o in outs:
         st = stage_of(o["spec"])
